@@ -47,6 +47,16 @@ fn main() {
                 vec!["allocation bound: 64 KiB + 64 x bytes sent (a parsed header costs about 50 bytes of bookkeeping for as little as 5 bytes on the wire, and vectors double)", "a child killed by the harness watchdog is inconclusive, a child that dies by itself (abort, signal) is a violation"],
             )
         }
+        "C08" => {
+            let mut p = make_part("real-idle", "CONV/sock", cli.cases(30, 3_000), props_sock2::c08_real_strategy, |_| (), |w, c| props_sock2::c08_real_test(w, c));
+            p.max_workers = Some(8);
+            p.max_shrink_iters = 4;
+            parts.push(p);
+            (
+                "part real-idle: real TCP/UNIX sockets: 1-6 connections that are open but silent (no byte sent yet) or stalled in the middle of a request head, then 1-6 connections with complete requests; oracle (differential, re-measured): every complete request is answered while the idle connections stay open; a violation needs, twice in a row on fresh servers, a request that got no answer for 5 s and got it as soon as the idle connections were closed; non-trivial: >= 5 connections",
+                vec!["socket engine: only positive re-measured evidence of a dependence on another connection ending counts as a violation; anything else that is slow is inconclusive"],
+            )
+        }
         "C15" => {
             let max_len = if cli.thorough { 100_000 } else { 20_000 };
             parts.push(make_part("sock-cuts", "CONV/sock", cli.cases(600, 30_000), move || props_sock2::c15_sock_strategy(max_len), sock::SockWorker::new, |w, c| props_sock2::c15_sock_test(w, c)));
